@@ -573,6 +573,29 @@ def run(ctx):
             if got_fresh != "raised":
                 ctx.check("construct-converts", [x[2] for x in got_fresh] == vals, "add_fields/values-differ", "add_fields label column %r reads %r" % (vals, got_fresh), {"values": list(map(str, vals)), "got": str(got_fresh)}, ("tmapv", kind_))
         ctx.check("operands-unchanged", tmap == tmap_before, "add_fields/callers-type-map-changed", "the field_type_map handed to add_fields was %r before and %r after" % (sorted(tmap_before), sorted(tmap)), {"before": sorted(tmap_before), "after": sorted(tmap)}, ("tmapd", tuple(kinds), bool(tmap_before)))
+        # a table whose text column was replaced by rows held in an alphabet, joined with a table as built: the rows of both operands in order (letters of the plain operand may be folded
+        # to the alphabet's case), or a refusal
+        plain_txt = ["".join(r.choice("ACGTacgt") for _ in range(r.randint(1, 5))) for _ in range(r.randint(1, 3))]
+        enc_txt = ["".join(r.choice("ACGT") for _ in range(r.randint(1, 5))) for _ in range(r.randint(1, 2))]
+        t_plain = dt.SequenceEntry(["p%d" % i for i in range(len(plain_txt))], plain_txt)
+        t_enc = bnp.replace(dt.SequenceEntry(["e%d" % i for i in range(len(enc_txt))], enc_txt), sequence=bnp.as_encoded_array(enc_txt, bnp.DNAEncoding))
+        for order in ("replaced-first", "replaced-last"):
+            ops_, want_ = ([t_enc, t_plain], enc_txt + plain_txt) if order == "replaced-first" else ([t_plain, t_enc], plain_txt + enc_txt)
+            try:
+                cat_ = np.concatenate(ops_)
+            except Exception as e:
+                from bnpmon.ctx import originates_in_library
+                if not originates_in_library(e):
+                    raise
+                ctx.judged("construct-raises", ("cat-replaced", order))
+                continue
+            try:
+                got_ = [str(x) for x in cat_.sequence.tolist()]
+                names_ = [str(x) for x in cat_.name.tolist()]
+            except Exception as e:
+                got_, names_ = ["<unreadable: %s>" % type(e).__name__], []
+            ctx.check("concat-rows", [g.upper() for g in got_] == [w.upper() for w in want_] and len(names_) == len(want_), "concat/text-column-held-in-an-alphabet-joined-with-plain-text:%s" % order,
+                      "np.concatenate of a table whose sequence column was replaced by DNA-encoded rows and a table as built (%s) reads %r, the operands say %r" % (order, got_, want_), {"order": order, "got": got_, "expected": want_}, ("cat-replaced", order, tuple(want_)))
         ctx.count("construction_from_columns")
 
     for i in range(ctx.share(ctx.pick(6000, 320000))):
